@@ -54,7 +54,7 @@ func Profile() *world.Profile {
 	p.Shapes = make([]int, 24)
 	for i, w := range map[int]int{world.ShCtx: 6, world.ShHTTP: 2, world.ShCtxTok: 3, world.ShCtxReqTok: 3, world.ShCtxStr: 3, world.ShCtxBytes: 1,
 		world.ShCtxErr: 1, world.ShCtxIntStr: 1, world.ShCtxIntErr: 1, world.ShCtxStrErr: 1, world.ShTeapot: 1, world.ShLogger: 1,
-		world.ShRWReqTok: 1, world.ShCtxRender: 2, world.ShCtxSvc: 0, world.ShInjector: 1, world.ShUserFast: 1, world.ShCtxPtrStr: 1} {
+		world.ShRWReqTok: 1, world.ShCtxRender: 2, world.ShCtxSvc: 0, world.ShInjector: 1, world.ShUserFast: 1, world.ShCtxPtrStr: 1, world.ShCtxNamedStr: 1, world.ShCtxNamedBytes: 1} {
 		p.Shapes[i] = w
 	}
 	p.MwShapes = append([]int{}, p.Shapes...)
